@@ -1,5 +1,6 @@
 (* C07 — Circuit shape is independent of witness values. *)
 From Coq Require Import ZArith List Bool Arith.
+From PlonkV Require Import Composer.PointComponents Composer.PointShape.
 From PlonkV Require Import Base.Fr Gates.Gate Gates.CS
   Composer.State Composer.Components Composer.ArithFacts Composer.BasicFacts Composer.RangeFacts
   Composer.DecompFacts Composer.TruncFacts Composer.LogicFacts Composer.ShapeFacts.
@@ -64,6 +65,37 @@ Check C07_sequence : forall A B (f : cs -> A * cs) (g : A -> cs -> B * cs),
   shape_indep f -> (forall a, shape_indep (g a)) ->
   shape_indep (fun s => let '(a, s1) := f s in g a s1).
 Print Assumptions C07_sequence.
+
+(* curve-point components (see also C12_add_emits, C13_torsion_emits, C14_canonical_emits) *)
+Theorem C07_point_add : forall a b, shape_indep (add_point_gates a b).
+Proof. exact add_point_gates_shape_indep. Qed.
+Check C07_point_add : forall a b, shape_indep (add_point_gates a b).
+Print Assumptions C07_point_add.
+
+Theorem C07_point_neg : forall p, shape_indep (component_neg_point p).
+Proof. exact component_neg_point_shape_indep. Qed.
+Check C07_point_neg : forall p, shape_indep (component_neg_point p).
+Print Assumptions C07_point_neg.
+
+Theorem C07_point_select_identity : forall (PR : PrimeR) bit a, shape_indep (select_identity_gates bit a).
+Proof. exact @select_identity_gates_shape_indep. Qed.
+Check C07_point_select_identity : forall (PR : PrimeR) bit a, shape_indep (select_identity_gates bit a).
+Print Assumptions C07_point_select_identity.
+
+Theorem C07_point_torsion : forall point, shape_indep (unit_run (assert_torsion_free_point point)).
+Proof. exact assert_torsion_free_point_shape_indep. Qed.
+Check C07_point_torsion : forall point, shape_indep (unit_run (assert_torsion_free_point point)).
+Print Assumptions C07_point_torsion.
+
+Theorem C07_point_mul : forall (PR : PrimeR) jubjub point, shape_indep (component_mul_point jubjub point).
+Proof. exact @component_mul_point_shape_indep. Qed.
+Check C07_point_mul : forall (PR : PrimeR) jubjub point, shape_indep (component_mul_point jubjub point).
+Print Assumptions C07_point_mul.
+
+Theorem C07_canonical_scalar : forall scalar, shape_indep (unit_run (assert_canonical_jubjub_scalar scalar)).
+Proof. exact assert_canonical_shape_indep. Qed.
+Check C07_canonical_scalar : forall scalar, shape_indep (unit_run (assert_canonical_jubjub_scalar scalar)).
+Print Assumptions C07_canonical_scalar.
 
 Example C07_nonvacuous :
   shape (snd (component_truncate 9%nat 6%nat (snd (append_witness (F 5) initialized)))) =
